@@ -100,6 +100,7 @@ pub fn repr(m: &'static Model) -> BoxedStrategy<Repr> {
         1 => flank(m, 70).prop_map(|post| Repr::Truncated { post }),
         1 => (any::<u16>(), pre.clone()).prop_map(|(split, pre)| Repr::Appended { split, pre }),
         1 => (any::<u16>(), pre).prop_map(|(split, pre)| Repr::Prepended { split, pre }),
+        1 => (1..64u8).prop_map(|head| Repr::RawBitVec { head }),
         1 => flank(m, 70).prop_map(|junk| Repr::Refilled { junk }),
         1 => (0..64u8).prop_map(|head| Repr::FromBitSlice { head }),
         1 => (pre_flank(m), any::<bool>()).prop_map(|(pre, cleared)| Repr::InsertedIntoEmpty { pre, cleared }),
